@@ -77,7 +77,9 @@ theorem enter_noIntro (env : Env) (s : Runtime) (str : Str) (h : NoIntro s) :
       · split
         · exact h
         · exact enterDirect_noIntro s _ h
-      · exact enterIndirect_noIntro s _ h
+      · split
+        · exact ⟨nofun, h.2⟩
+        · exact enterIndirect_noIntro s _ h
 
 theorem interrupt_noIntro (s : Runtime) (h : NoIntro s) : NoIntro (interrupt s) := by
   unfold interrupt
